@@ -430,6 +430,8 @@ theorem inv_step {s : St} (h : Inv s) (op : Op) : Inv (step s op).1 := by
   | flushFE => exact inv_flush h
   | unwrap => exact h
   | copy chunks rerr => exact inv_writes h (chunks.filter (· ≠ 0))
+  | writeString n => exact inv_write h n
+  | copyWT n => exact inv_writes h ([n].filter (· ≠ 0))
   | jsonp c cb k ok => exact inv_writes (inv_writeHeader (inv_writeCT h ctJS) c) _
   | xml c k ok => exact inv_writes (inv_writeHeader (inv_writeCT h ctXML) c) _
   | render c n ok =>
@@ -540,7 +542,7 @@ def carriesStatus : Op → Bool
   | .redirect c => !(decide (c < 300 ∨ c > 308))
   | .render _ _ ok => ok          -- without a rendered page no status write is attempted
   | .file found _ _ _ => found    -- ServeContent's `WriteHeader(200)`; a missing file attempts none
-  | .write _ | .flush | .before _ | .after _ | .flushRC | .flushFE | .unwrap | .copy _ _
+  | .write _ | .flush | .before _ | .after _ | .flushRC | .flushFE | .unwrap | .copy _ _ | .writeString _ | .copyWT _
   | .hijack => false
 
 /-- one operation on a response whose headers are out -/
@@ -603,6 +605,11 @@ theorem hv_step_sent {s : St} (hs : Sent s) (op : Op) :
   | unwrap => simp [carriesStatus, step]
   | copy chunks rerr =>
     have : hv (step s (.copy chunks rerr)).1 = hv (writes s (chunks.filter (· ≠ 0))).1 := rfl
+    rw [this, hv_writes_sent hs]
+    simp [carriesStatus]
+  | writeString n => simpa [carriesStatus, step] using hv_write_sent hs n
+  | copyWT n =>
+    have : hv (step s (.copyWT n)).1 = hv (writes s ([n].filter (· ≠ 0))).1 := rfl
     rw [this, hv_writes_sent hs]
     simp [carriesStatus]
   | jsonp c cb k ok =>
@@ -717,6 +724,8 @@ def opEffect (p : Nat) : Op → Eff
   | .flushFE => .commits (pend p)
   | .unwrap => .pending p
   | .copy chunks _ => if chunks.filter (· ≠ 0) = [] then .pending p else .commits (pend p)
+  | .writeString _ => .commits (pend p)
+  | .copyWT n => if [n].filter (· ≠ 0) = [] then .pending p else .commits (pend p)
   | .jsonp c _ _ _ => .commits c         -- also when the value cannot be serialised
   | .xml c _ _ => .commits c             -- also when the value cannot be encoded
   | .render c _ ok => if ok then .commits c else .pending p
@@ -882,6 +891,19 @@ theorem step_effect {s : St} (h : Inv s) (hc : s.committed = false) (op : Op) :
     have : (step s (.copy chunks rerr)).1 = (writes s (chunks.filter (· ≠ 0))).1 := rfl
     simp only [opEffect]
     cases hl : chunks.filter (· ≠ 0) with
+    | nil =>
+      simp only [if_true]
+      rw [this, hl]
+      exact ⟨hc, rfl⟩
+    | cons n ns =>
+      simp only [List.cons_ne_nil, if_false]
+      rw [this, hl]
+      exact hv_writes_unsent_cons h hc n ns
+  | writeString n => exact hv_write_unsent h hc n
+  | copyWT k =>
+    have : (step s (.copyWT k)).1 = (writes s ([k].filter (· ≠ 0))).1 := rfl
+    simp only [opEffect]
+    cases hl : [k].filter (· ≠ 0) with
     | nil =>
       simp only [if_true]
       rw [this, hl]
@@ -1484,6 +1506,8 @@ theorem sh_step_sent {s : St} (hs : Sent s) (op : Op) : sh (step s op).1 = sh s 
   | flushFE => exact sh_flush_sent hs
   | unwrap => rfl
   | copy chunks rerr => exact sh_writes_sent hs _
+  | writeString n => exact sh_write_sent hs n
+  | copyWT n => exact sh_writes_sent hs _
   | jsonp c cb k ok => exact sh_serve_sent hs _ c _
   | xml c k ok => exact sh_serve_sent hs _ c _
   | render c n ok =>
@@ -1810,6 +1834,11 @@ theorem commitAttempt_frame {s s' : St} {op : Op} {c : Nat} (ha : commitAttempt 
     split at ha
     · simp at ha
     · simp only [Option.some.injEq, Prod.mk.injEq] at ha; obtain ⟨rfl, _⟩ := ha; simp
+  case writeString => obtain ⟨rfl, _⟩ := ha; simp
+  case copyWT k =>
+    split at ha
+    · simp at ha
+    · simp only [Option.some.injEq, Prod.mk.injEq] at ha; obtain ⟨rfl, _⟩ := ha; simp
   case json c' k ok =>
     split at ha
     · simp only [Option.some.injEq, Prod.mk.injEq] at ha; obtain ⟨rfl, _⟩ := ha; simpa using hw ctJSON
@@ -1924,6 +1953,8 @@ theorem step_before (s : St) (op : Op) (hop : isBefore op = false) : (step s op)
   case flushRC => exact flush_before _
   case flushFE => exact flush_before _
   case copy => exact writes_before _ _
+  case writeString => exact write_before _ _
+  case copyWT => exact writes_before _ _
   case jsonp => rw [writes_before, writeHeader_before, writeCT_before]
   case xml => rw [writes_before, writeHeader_before, writeCT_before]
   case render c n ok =>
@@ -1986,5 +2017,28 @@ example : let s := runS false (init 200 9) [.noContent 1000, .writeHeader 204]
 example : commitAttempt (init 200 9) (.json 99 4 true) = some ({ writeCT (init 200 9) ctJSON with status := 99 }, 99) ∧
     validCode 99 = false ∧ validCode 0 = false ∧ validCode 1000 = false ∧ validCode 100 = true ∧ validCode 999 = true := by
   decide
+
+/-! ## the optional-interface probes land in `Write` (round 6) -/
+
+/-- **C06_writeString_is_write** — `io.WriteString` into the response is `Response.Write`:
+    same state, same recording, same return values (so commit, Size and hooks are Write's). -/
+theorem C06_writeString_is_write (s : St) (n : Nat) : step s (.writeString n) = step s (.write n) := rfl
+
+/-- **C06_copyWT_is_copy** — `io.Copy` from a source with `WriteTo` is one `Write` of
+    everything: the same as copying from a reader that hands out one chunk. -/
+theorem C06_copyWT_is_copy (s : St) (n : Nat) : step s (.copyWT n) = step s (.copy [n] false) := by
+  simp [step]
+
+/-- whichever probe is the first to touch an uncommitted response, the commit is complete:
+    headers out once with the pending status, `Committed` true, `Status` = what was sent -/
+theorem C06_probe_commits {s : St} (h : Inv s) (hc : s.committed = false) (op : Op)
+    (hop : op = .writeString n ∨ op = .copyWT (n + 1) ∨ op = .copy [n + 1] false ∨ op = .flushRC ∨ op = .flushFE) :
+    hv (step s op).1 = committedWith s (pend s.status) := by
+  have := step_effect h hc op
+  rcases hop with rfl | rfl | rfl | rfl | rfl <;> simpa [opEffect] using this
+
+example : (run (init 0 100) [.before 1, .after 2, .writeString 3, .copyWT 0, .copyWT 2]).trace
+    = [.regB 1, .regA 2, .runB 1, .hdr 200, .body 3, .runA 2, .body 2, .runA 2] := by decide
+example : firstStatus 200 [.json 202 0 false, .copyWT 0, .copyWT 4, .writeHeader 500] = some 202 := by decide
 
 end C06
